@@ -22,7 +22,8 @@ namespace ApiFu.C13
 
 /-- Selection trees in first-child / next-sibling form (structural recursion without nested lists).
     `tag` is the field name for introspection selections; for `walk`/`exec` it is `field` (with
-    `arg` the field name), `on` (with `arg` the type condition) or `typename`. -/
+    `arg` the field name), `on` (with `arg` the type condition), `group` (an inline fragment without
+    type condition) or `typename`. -/
 inductive Sels where
   | nil
   | cons (tag : String) (arg : String) (sub : Sels) (rest : Sels)
@@ -151,6 +152,7 @@ def walk (v : View) : Option String → Sels → List Event
        match parent with
        | some p => [.typename p]
        | none => []
+     else if tag == "group" then walk v parent sub          -- inline fragment without type condition
      else []) ++ walk v parent rest
 
 /-- Every type condition of the tree is known to the feature-aware lookup (what validation
@@ -180,6 +182,7 @@ def exec (v : View) (world : String → String → Option String) : String → S
        | none => []
        | some _ => if v.fragApplies objT arg then exec v world objT sub else []
      else if tag == "typename" then [.typename objT]
+     else if tag == "group" then exec v world objT sub
      else []) ++ exec v world objT rest
 
 /-! ## Driver glue (not used by theorems) -/
